@@ -19,8 +19,8 @@ LEVEL_TEXT = ('Partial. Coq theorems over R about the energy kernels re-translat
 TECHNIQUE = 'Coq proof (Reals + Coquelicot + nsatz) over kernels regenerated from the Python AST; vm_compute/PrimFloat correspondence'
 GEN = ['Math', 'TensorMath', 'LinearElastic', 'Neohookean', 'Gent', 'J2Elastic', 'HyperViscoelastic', 'MultiBranchHyperViscoelastic',
        'PhaseFieldThreshold']
-TARGETS = ['model/M_C08.vo', 'proofs/L_C08.vo']
-COQ_FILES = ['base/Num.v', 'model/M_C08.v', 'proofs/L_C08.v', 'props/P_C08.v']
+TARGETS = ['model/M_C08.vo', 'model/M_C08b.vo', 'proofs/L_C08.vo', 'proofs/L_C08b.vo']
+COQ_FILES = ['base/Num.v', 'model/M_C08.v', 'model/M_C08b.v', 'proofs/L_C08.v', 'proofs/L_C08b.v', 'props/P_C08.v']
 BUILD_TIMEOUT = 1500
 TRUSTED = ['Coq 8.16.1 kernel + vm_compute (no native_compute)',
            'tools/vlib/py2coq.py translator (Python ast -> Gallina over Num T; np.linalg.det/inv on 3x3 modelled by cofactor formulas), '
@@ -41,7 +41,7 @@ RULE = ('inputs: seeded displacement gradients H = R1 diag(stretches) R2 - I wit
         'is not the identity; distinct = distinct (model, H, Q) tuples')
 IMPORTS = ['From OV.gen Require Import Gen_TensorMath Gen_LinearElastic Gen_Neohookean Gen_Gent Gen_J2Elastic Gen_HyperViscoelastic '
            'Gen_MultiBranchHyperViscoelastic Gen_PhaseFieldThreshold.',
-           'From OV.model Require Import M_C08.']
+           'From OV.model Require Import M_C08 M_C08b.']
 
 E_MOD, NU = 10.0, 0.25
 KAPPA = E_MOD / 3.0 / (1.0 - 2.0 * NU)
@@ -493,17 +493,11 @@ def l1_run(ctx, cases):
         FvT = tr(Fv)
         L_2 = L_I
         L_3 = lss_of(F @ onp.linalg.inv(onp.array(FvT)))
-        # the model receives ONE lss function; give it a dispatcher on the (0,1) entry of its argument? -- simpler: run the three
-        # branches with separate constant oracles through mb_branch and add them up exactly as E_mb does
+        # E_mb3 (model/M_C08b.v) = E_mb with the three log_sqrt_symm call sites separated (P_C08.C08_multibranch_three_call_sites):
+        # each call site receives what the implementation's log_sqrt_symm returned there
         stmb = np.hstack((np.array(Fv).ravel(), np.eye(3).ravel(), np.array(FvT).ravel()))
-        mbexpr = ('(let br := fun inc neq dis l fv => mb_branch inc neq dis l %s fv %s %s in '
-                  'let b1 := br (@_compute_state_increment_b1 _ _) (@_neq_strain_energy_b1 _ _) (@_dissipation_potential_b1 _ _) %s %s in '
-                  'let b2 := br (@_compute_state_increment_b2 _ _) (@_neq_strain_energy_b2 _ _) (@_dissipation_potential_b2 _ _) %s %s in '
-                  'let b3 := br (@_compute_state_increment_b3 _ _) (@_neq_strain_energy_b3 _ _) (@_dissipation_potential_b3 _ _) %s %s in '
-                  'nadd (nadd (E_mb_eq %s %s) (nadd (nadd (nadd nzero (fst b1)) (fst b2)) (fst b3))) '
-                  '(nmul %s (nadd (nadd (nadd nzero (snd b1)) (snd b2)) (snd b3))))'
-                  % (ctup(MB_PROPS), C.cf(DT), hm, fn_const(L_v), cm(Fv), fn_const(L_2), cm(ident()), fn_const(L_3), cm(FvT),
-                     ctup(MB_PROPS), hm, C.cf(DT)))
+        mbexpr = 'E_mb3 %s %s %s %s %s %s %s %s %s' % (fn_const(L_v), fn_const(L_2), fn_const(L_3), ctup(MB_PROPS), cm(Fv), cm(ident()),
+                                                       cm(FvT), C.cf(DT), hm)
         items.append(('MultiBranchHyperViscoelastic', mbexpr,
                       float(M['MultiBranchHyperViscoelastic']['jm'](Hn, stmb, DT))))
         ph, g = 0.37, (0.2, -0.4, 0.1)
@@ -651,8 +645,8 @@ def matches_finding(fl, f):
         # At small strains the same defect gives a small ABSOLUTE but large relative energy error (the strain is a difference of nearly
         # equal powers, the batched eigenvectors are off by ~1e-3).  Such a failure is this finding only if it is demonstrably
         # batch-specific: the very same pair of states evaluated as single compiled calls satisfies the invariance to the usual
-        # tolerance, and the absolute error is below 1e-6 of the modulus.
-        return abs(c['e1'] - c['e0']) <= 1e-6 * E_MOD and _single_call_invariant(c)
+        # tolerance, and the absolute error is below 1e-4 of the modulus (batched eigenvector errors reach O(1e-2) at exact degeneracy, C12 EIGVMAP).
+        return abs(c['e1'] - c['e0']) <= 1e-4 * E_MOD and _single_call_invariant(c)
     if f['id'] == 'EIGVMAP':
         if not (c.get('batch') and c.get('model') in SPECTRAL and c.get('check') in ('objectivity', 'isotropy', 'kirchhoff')):
             return False
